@@ -27,12 +27,16 @@ def isDigit (b : UInt8) : Bool := 48 ≤ b && b ≤ 57
 
 def digitsVal (ds : Bytes) : Nat := ds.foldl (fun n d => n * 10 + (d.toNat - 48)) 0
 
+/-- the optional sign of `strconv.Atoi`: (negative?, the rest) -/
+def splitSign (s : Bytes) : Bool × Bytes :=
+  match s with
+  | 45 :: ds => (true, ds)
+  | 43 :: ds => (false, ds)
+  | _ => (false, s)
+
 /-- `strconv.Atoi` on a 64-bit platform: optional sign, one or more decimal digits, value within int64 -/
 def atoi (s : Bytes) : Option Int :=
-  let sd : Bool × Bytes := match s with
-    | 45 :: ds => (true, ds)
-    | 43 :: ds => (false, ds)
-    | _ => (false, s)
+  let sd : Bool × Bytes := splitSign s
   if sd.2.isEmpty || !sd.2.all isDigit then none else
   let v := digitsVal sd.2
   if sd.1 then (if v ≤ 2^63 then some (-(v : Int)) else none)
